@@ -49,20 +49,20 @@ func (r *verifRecorder) body() string { return strings.Join(r.parts, "") }
 // request description
 
 type verifReq struct {
-	method      string
-	path        string
-	pi          int
-	body        int    // PUT: content id
-	bodyFails   int    // PUT: -1 never, else fails after that many bytes
-	dest        int    // COPY/MOVE: 0 missing header, 1 unparsable, 2 a universe path
-	di          int    // destination index
-	depth       string // "" absent
-	hasDepth    bool
-	overwrite   string
+	method       string
+	path         string
+	pi           int
+	body         int    // PUT: content id
+	bodyFails    int    // PUT: -1 never, else fails after that many bytes
+	dest         int    // COPY/MOVE: 0 missing header, 1 unparsable, 2 a universe path
+	di           int    // destination index
+	depth        string // "" absent
+	hasDepth     bool
+	overwrite    string
 	hasOverwrite bool
-	contentType bool // MKCOL announces a body
-	ifMatch     string
-	ifNoneMatch string
+	contentType  bool // MKCOL announces a body
+	ifMatch      string
+	ifNoneMatch  string
 }
 
 var verifC01Methods = []string{"OPTIONS", "GET", "HEAD", "PUT", "DELETE", "MKCOL", "COPY", "MOVE", "PROPFIND", "PROPPATCH", "BREW"}
